@@ -44,6 +44,9 @@ structure RecOps where
   /-- `index * get_entry_size()` (getter / setter) -/
   getOff : BitVec 64 → BitVec 64 → BitVec 64
   setOff : BitVec 64 → BitVec 64 → BitVec 64
+  /-- the two guards of the setter (fixes/21): `get_entry_size() < sizeof(T)`, `get_data() == nullptr` -/
+  setSmall : BitVec 64 → Bool
+  setNodata : Bool → Bool
   /-- widening of the converted field values on the way out -/
   getOffset : Nat → BitVec 64
   getTmp : Nat → BitVec 64
@@ -74,6 +77,8 @@ def ops32rel : RecOps where
   entsizeSmall := reloc_getrel32_entsize_small
   getOff := reloc_getrel32_off
   setOff := reloc_setrel32_off
+  setSmall := reloc_setrel32_entsize_small
+  setNodata := reloc_setrel32_nodata
   getOffset := fun v => reloc_getrel32_offset (BitVec.ofNat 32 v)
   getTmp := fun v => reloc_getrel32_tmp (BitVec.ofNat 32 v)
   rSym := fun t => reloc_getrel32_symbol (rel32_r_sym t)
@@ -101,6 +106,8 @@ def ops32rela : RecOps where
   entsizeSmall := reloc_getrela32_entsize_small
   getOff := reloc_getrela32_off
   setOff := reloc_setrela32_off
+  setSmall := reloc_setrela32_entsize_small
+  setNodata := reloc_setrela32_nodata
   getOffset := fun v => reloc_getrela32_offset (BitVec.ofNat 32 v)
   getTmp := fun v => reloc_getrela32_tmp (BitVec.ofNat 32 v)
   rSym := fun t => reloc_getrela32_symbol (rela32_r_sym t)
@@ -128,6 +135,8 @@ def ops64rel : RecOps where
   entsizeSmall := reloc_getrel64_entsize_small
   getOff := reloc_getrel64_off
   setOff := reloc_setrel64_off
+  setSmall := reloc_setrel64_entsize_small
+  setNodata := reloc_setrel64_nodata
   getOffset := fun v => reloc_getrel64_offset (BitVec.ofNat 64 v)
   getTmp := fun v => reloc_getrel64_tmp (BitVec.ofNat 64 v)
   rSym := fun t => reloc_getrel64_symbol (rel64_r_sym t)
@@ -155,6 +164,8 @@ def ops64rela : RecOps where
   entsizeSmall := reloc_getrela64_entsize_small
   getOff := reloc_getrela64_off
   setOff := reloc_setrela64_off
+  setSmall := reloc_setrela64_entsize_small
+  setNodata := reloc_setrela64_nodata
   getOffset := fun v => reloc_getrela64_offset (BitVec.ofNat 64 v)
   getTmp := fun v => reloc_getrela64_tmp (BitVec.ofNat 64 v)
   rSym := fun t => reloc_getrela64_symbol (rela64_r_sym t)
@@ -212,10 +223,10 @@ def getEntry (enc : Enc) (b : SecBuf) (index : BitVec 64) : M (SecBuf × Option 
     else if reloc_get_is_rela64 b.stype then getGeneric ops64rela enc b index
     else pure (b, none)
 
-/-- `generic_set_entry_rel<T>` / `generic_set_entry_rela<T>`: each field is assigned (narrowed) and
-    then converted in place — as bytes, one `wrField` per field, in the order of the first
-    assignments.  There is no entry-size guard here. -/
-def setGeneric (ops : RecOps) (enc : Enc) (b : SecBuf) (index : BitVec 64) (e : Entry) : M SecBuf :=
+/-- the member writes of `generic_set_entry_rel<T>` / `generic_set_entry_rela<T>`: each field is assigned
+    (narrowed) and then converted in place — as bytes, one `wrField` per field, in the order of the first
+    assignments. -/
+def setWrites (ops : RecOps) (enc : Enc) (b : SecBuf) (index : BitVec 64) (e : Entry) : M SecBuf :=
   let b := b.getData
   let off := (ops.setOff index b.entSize).toNat
   let info := if ops.setIs32 (classByte b.cls) then ops.setInfo32 e.symbol e.type
@@ -227,6 +238,13 @@ def setGeneric (ops : RecOps) (enc : Enc) (b : SecBuf) (index : BitVec 64) (e : 
               wrRange "set_entry/r_addend" d (off + ops.addendOff) (wrField enc ops.addendW (ops.setAddend e.addend))
             else pure d
     pure { b with data := d }
+
+/-- `generic_set_entry_rel<T>` / `generic_set_entry_rela<T>` : since fixes/21 behind the same two guards
+    as the getters (entry size below `sizeof(T)`; no data) -/
+def setGeneric (ops : RecOps) (enc : Enc) (b : SecBuf) (index : BitVec 64) (e : Entry) : M SecBuf :=
+  if ops.setSmall b.entSize then pure b else
+  if ops.setNodata b.getData.data.isNone then pure b.getData else
+  setWrites ops enc b index e
 
 /-- `set_entry(index, offset, symbol, type, addend)` and its return value -/
 def setEntry (enc : Enc) (b : SecBuf) (index : BitVec 64) (e : Entry) : M (SecBuf × Bool) := do
